@@ -594,6 +594,59 @@ func runCache(c *Case, out *RunOut, viol func(oracle, finger, detail string)) {
 				delete(heldV, slot)
 			}
 		}
+		doGet := func(op *COp) {
+			release(op.Slot)
+			var created *cval
+			var set func() (int, cache.Value)
+			if op.K == "get" {
+				set = func() (int, cache.Value) {
+					k := [2]uint64{op.NS, op.N}
+					if old := mon.live[k]; old != nil && old.finalized == 0 {
+						viol("cache", "cache:two-residencies", fmt.Sprintf("constructor ran for (%d,%d) while value %d is still live", op.NS, op.N, old.id))
+					}
+					mon.nextID++
+					created = &cval{id: mon.nextID, ns: op.NS, key: op.N, size: op.Size}
+					mon.live[k] = created
+					all = append(all, created)
+					out.Probes["cache-construct"]++
+					if dbgCache {
+						fmt.Printf("   construct v%d(%d,%d) by g%d\n", created.id, op.NS, op.N, pi)
+					}
+					return op.Size, created
+				}
+			}
+			h := ch.Get(op.NS, op.N, set)
+			if h != nil {
+				v, ok := h.Value().(*cval)
+				if !ok || v == nil {
+					// a forced Close finalises values under outstanding handles
+					if !mon.forced {
+						viol("cache", "cache:nil-value", fmt.Sprintf("Get(%d,%d) returned a handle without value", op.NS, op.N))
+					}
+					h.Release()
+					return
+				}
+				if v.ns != op.NS || v.key != op.N {
+					viol("cache", "cache:wrong-value", fmt.Sprintf("Get(%d,%d) returned the value of (%d,%d)", op.NS, op.N, v.ns, v.key))
+				}
+				if v.finalized > 0 {
+					viol("cache", "cache:dead-value", fmt.Sprintf("Get(%d,%d) handed out value %d which is already finalised", op.NS, op.N, v.id))
+				}
+				if cur := mon.live[[2]uint64{op.NS, op.N}]; cur != v {
+					viol("cache", "cache:stale-value", fmt.Sprintf("Get(%d,%d) returned value %d but the live value is another one", op.NS, op.N, v.id))
+				}
+				v.handles++
+				if dbgCache {
+					fmt.Printf("   g%d got handle on v%d(%d,%d) finalized=%d\n", pi, v.id, v.ns, v.key, v.finalized)
+				}
+				held[op.Slot] = h
+				heldV[op.Slot] = v
+				out.Probes["cache-hit-or-set"]++
+			} else if mon.closed == false && op.K == "get" && created != nil {
+				// constructor ran but no handle: only legal when closed concurrently
+				out.Probes["cache-get-nil-after-set"]++
+			}
+		}
 		for i := range prog {
 			if len(out.Viol) > 0 {
 				break
@@ -608,57 +661,15 @@ func runCache(c *Case, out *RunOut, viol func(oracle, finger, detail string)) {
 			}
 			switch op.K {
 			case "get", "peek":
-				release(op.Slot)
-				var created *cval
-				var set func() (int, cache.Value)
-				if op.K == "get" {
-					set = func() (int, cache.Value) {
-						k := [2]uint64{op.NS, op.N}
-						if old := mon.live[k]; old != nil && old.finalized == 0 {
-							viol("cache", "cache:two-residencies", fmt.Sprintf("constructor ran for (%d,%d) while value %d is still live", op.NS, op.N, old.id))
-						}
-						mon.nextID++
-						created = &cval{id: mon.nextID, ns: op.NS, key: op.N, size: op.Size}
-						mon.live[k] = created
-						all = append(all, created)
-						out.Probes["cache-construct"]++
-						if dbgCache {
-							fmt.Printf("   construct v%d(%d,%d) by g%d\n", created.id, op.NS, op.N, pi)
-						}
-						return op.Size, created
-					}
+				doGet(op)
+			case "fill":
+				// enough distinct entries to make the hash table grow, so that
+				// what follows meets buckets that are not migrated yet
+				for j := 0; j < op.Size && len(out.Viol) == 0; j++ {
+					doGet(&COp{K: "get", NS: op.NS, N: op.N + uint64(j), Size: 1, Slot: op.Slot})
+					release(op.Slot)
 				}
-				h := ch.Get(op.NS, op.N, set)
-				if h != nil {
-					v, ok := h.Value().(*cval)
-					if !ok || v == nil {
-						// a forced Close finalises values under outstanding handles
-						if !mon.forced {
-							viol("cache", "cache:nil-value", fmt.Sprintf("Get(%d,%d) returned a handle without value", op.NS, op.N))
-						}
-						h.Release()
-						break
-					}
-					if v.ns != op.NS || v.key != op.N {
-						viol("cache", "cache:wrong-value", fmt.Sprintf("Get(%d,%d) returned the value of (%d,%d)", op.NS, op.N, v.ns, v.key))
-					}
-					if v.finalized > 0 {
-						viol("cache", "cache:dead-value", fmt.Sprintf("Get(%d,%d) handed out value %d which is already finalised", op.NS, op.N, v.id))
-					}
-					if cur := mon.live[[2]uint64{op.NS, op.N}]; cur != v {
-						viol("cache", "cache:stale-value", fmt.Sprintf("Get(%d,%d) returned value %d but the live value is another one", op.NS, op.N, v.id))
-					}
-					v.handles++
-					if dbgCache {
-						fmt.Printf("   g%d got handle on v%d(%d,%d) finalized=%d\n", pi, v.id, v.ns, v.key, v.finalized)
-					}
-					held[op.Slot] = h
-					heldV[op.Slot] = v
-					out.Probes["cache-hit-or-set"]++
-				} else if mon.closed == false && op.K == "get" && created != nil {
-					// constructor ran but no handle: only legal when closed concurrently
-					out.Probes["cache-get-nil-after-set"]++
-				}
+				out.Probes["cache-fill"]++
 			case "release":
 				release(op.Slot)
 			case "delete":
@@ -747,6 +758,15 @@ func runCache(c *Case, out *RunOut, viol func(oracle, finger, detail string)) {
 			return
 		}
 	}
+	if mon.closed {
+		// closed, and every handle has been released since
+		for _, v := range all {
+			if v.finalized != 1 {
+				viol("cache", "cache:not-finalized", fmt.Sprintf("value %d of (%d,%d) finalised %d times after Close with all handles released", v.id, v.ns, v.key, v.finalized))
+				return
+			}
+		}
+	}
 	if !mon.closed {
 		// with no handle outstanding every deletion callback has run, once
 		for _, tag := range mon.delTags {
@@ -823,6 +843,32 @@ func genCache(seed uint64, g *gen, c *Case, thorough bool) *Case {
 		if gi == closer {
 			at := r.intn(len(p) + 1)
 			p = append(p[:at:at], COp{K: "close", Force: r.p(0.5)})
+		}
+		if gi == 0 && r.p(0.15) {
+			// grow the hash table (growth starts at 512 nodes and doubles),
+			// and let Close / EvictAll / SetCapacity follow while buckets
+			// are still being migrated
+			fill := COp{K: "fill", NS: uint64(r.intn(nns)), N: 1000, Size: r.pick(520, 600, 1100, 2200), Slot: r.intn(4)}
+			at := r.intn(len(p) + 1)
+			var next []COp
+			switch r.intn(4) {
+			case 0:
+				next = []COp{{K: "evictall"}}
+			case 1:
+				next = []COp{{K: "setcap", Size: 0}}
+			case 2:
+				if closer < 0 {
+					closer = 0
+					p = append(p[:at:at], fill, COp{K: "close", Force: r.p(0.5)})
+					at = -1
+				}
+			}
+			if at >= 0 {
+				p = append(p[:at:at], append(append([]COp{fill}, next...), p[at:]...)...)
+			}
+			if cc.Cap < 5000 && r.p(0.7) {
+				cc.Cap = 5000
+			}
 		}
 		cc.Prog = append(cc.Prog, p)
 	}
